@@ -189,6 +189,14 @@ def replay(rec):
         bad = 'MISMATCH' in res or 'RESULT panic' in res
         print('the violation %s' % ('REPRODUCES' if bad else 'does not reproduce on the current tree'))
         return 1 if bad else 0
+    if ce['kind'] == 'native_diff':
+        build_replay()
+        res = run_replay(ce['args'], timeout=900)
+        print('recorded : ' + ce['observed'][:1500])
+        print('observed : ' + res[:1500])
+        bad = _verdict_for(ce.get('prop'), res)
+        print('the violation %s' % ('REPRODUCES' if bad else 'does not reproduce on the current tree'))
+        return 1 if bad else 0
     if ce['kind'] == 'stream_diff':
         build_replay()
         res = run_replay(['stream-diff', ce.get('seqs', 3000)], timeout=600)
@@ -213,7 +221,7 @@ def replay(rec):
         print('recorded : ' + ce['observed'])
         print('observed : ' + res)
         if ce.get('expect') == 'agree':
-            bad = 'MISMATCH' in res or 'RESULT panic' in res
+            bad = _verdict_for(ce.get('prop') or rec.get('property'), res)
         elif ce.get('expect') == 'fill_reads_timer':
             import re
             m = re.search(r'\[fill:\d+ -> \S+ reads\+(\d+)\]', res)
@@ -234,7 +242,7 @@ def jitter_diff_candidates(seed, prop):
         'C12': ['next_u64', 'next_u64+next_u32+next_u32+next_u64', 'fill:16+next_u32', 'next_u32+next_u64'],
         'C05': ['next_u32+next_u32+next_u32', 'fill:13+next_u64', 'fill:8+fill:5+fill:3', 'next_u64+fill:20'],
         'C16': ['next_u32+fill:8+next_u32', 'next_u32+fill:12+next_u32', 'next_u32+next_u64+next_u32', 'next_u32+clone_next_u32+next_u32',
-                'next_u32+fill:32+next_u32', 'next_u32+next_u32+next_u32+fill:5+next_u32'],
+                'next_u32+fill:32+next_u32', 'next_u32+next_u32+next_u32+fill:5+next_u32', 'next_u64+clonefrom_next_u32+next_u32'],
         'C13': ['test_timer'],
         'C14': ['next_u64', 'test_timer', 'fill:9'],
     }.get(prop, ['next_u64', 'test_timer'])
@@ -295,8 +303,8 @@ def jitter_diff_part(prop, seed=0, budget_s=240):
             break
         res = run_replay(['jitter', call, rounds, base, ','.join(str(d) for d in deltas)])
         n += 1
-        if 'MISMATCH' in res or 'RESULT panic' in res:
-            found = dict(kind='jitter_timer_script', call=call, rounds=rounds, base=base, deltas=deltas, observed=res, expect='agree',
+        if _verdict_for(prop, res):
+            found = dict(kind='jitter_timer_script', call=call, rounds=rounds, base=base, deltas=deltas, observed=res, expect='agree', prop=prop,
                          explanation='differential run: real rand_jitter (dev profile) vs. the executable twin of the specification on the same scripted timer')
             break
     ob = Ob('diff:jitter:%s' % prop, [prop], FAILED if found else DISCHARGED, 'replay-differential', fn='rand_jitter (public API)', kind='differential',
@@ -367,5 +375,51 @@ def stream_diff_part(seqs=3000):
                      text=res[:400], detail=[dict(message=res[:1500], rendered=res[:3000], failing_input=fi)] if bad else [],
                      bounded='exploration: 19 generators x %d histories of 14 calls' % seqs))
     pr.cmd = 'rngs-replay stream-diff %d' % seqs
+    pr.wall_s = _t.time() - t0
+    return pr
+
+
+def _verdict_for(prop, res):
+    """How a native differential run counts for a property: the functional properties take any disagreement with the reference or
+    any panic; C14 (no panic) takes panics only; C18 (same behaviour in every build configuration) takes only panics that exist in
+    one configuration only (overflow checks / debug assertions are on in the dev profile these runs use, off in release)."""
+    panic = 'RESULT panic' in res
+    if prop == 'C14':
+        return panic
+    if prop == 'C18':
+        return panic and ('overflow' in res or 'debug_assert' in res or 'assertion' in res)
+    return panic or 'MISMATCH' in res
+
+
+def native_part(kind, prop):
+    """diff:stream / diff:clone / diff:isaac - exploration parts on the replay crate (real crates, dev profile); bounded, can only
+    report a violation."""
+    from .parts import PartResult, Ob, DISCHARGED, FAILED
+    import time as _t
+    spec = {
+        'stream': (['stream-diff', 3000], 600, 'C05', 'RngCore impls of all 19 deterministic generators (public API)',
+                   'interleaved next_u32 / next_u64 / fill_bytes(n) vs. the documented projection of the native word stream of an identically seeded twin',
+                   '19 generators x 3000 histories of 14 calls (fills up to 2400 bytes for the buffered generators)'),
+        'clone': (['clone-diff'], 600, 'C10', 'Clone impls of all 19 deterministic generators (public API)',
+                  'a.clone() and b.clone_from(&a) continue exactly like a (and compare equal to it where == exists); a is untouched',
+                  '19 generators x 20 source positions x 20 destination positions'),
+        'isaac': (['isaac-diff', 20000], 900, 'C03', 'rand_isaac::{IsaacRng, Isaac64Rng} (public API)',
+                  'real output words vs. a transcription of rand.c / isaac64.c', '12 seeds x 20000 blocks x 2 generators'),
+    }[kind]
+    args, tmo, home, fn, what, bound = spec
+    pr = PartResult('diff:' + kind)
+    t0 = _t.time()
+    build_replay()
+    res = run_replay(args, timeout=tmo)
+    p = prop or home
+    bad = _verdict_for(p, res)
+    if not res.startswith('RESULT ok') and 'RESULT panic' not in res:
+        pr.undecided.append('%s did not complete: %s' % (args[0], res[:200]))
+    fi = dict(kind='native_diff', args=[str(a) for a in args], prop=p, observed=res[:3000],
+              explanation='native differential run on the real crates (dev profile): ' + what)
+    pr.obs.append(Ob('diff:%s:%s' % (kind, p), [p], FAILED if bad else DISCHARGED, 'replay-differential', fn=fn, kind='differential',
+                     text=what + ' - ' + res[:300], detail=[dict(message=res[:1500], rendered=res[:3000], failing_input=fi)] if bad else [],
+                     bounded='exploration: ' + bound))
+    pr.cmd = 'rngs-replay ' + ' '.join(str(a) for a in args)
     pr.wall_s = _t.time() - t0
     return pr
